@@ -25,8 +25,11 @@ EscByte(c) == IF c = 34 THEN <<92, 34>> ELSE IF c = 92 THEN <<92, 92>> ELSE IF c
               ELSE IF c = 9 THEN <<92, 116>>
               ELSE IF c < 32 THEN <<92, 117, 48, 48, HexDigit(c \div 16), HexDigit(Rem(c, 16))>>
               ELSE <<c>>
-RECURSIVE EscBody(_)
-EscBody(s) == IF s = <<>> THEN <<>> ELSE EscByte(Head(s)) \o EscBody(Tail(s))
+RECURSIVE EscBodyR(_)
+EscBodyR(s) == IF s = <<>> THEN <<>> ELSE EscByte(Head(s)) \o EscBodyR(Tail(s))
+NeedsEscape(c) == c < 32 \/ c = 34 \/ c = 92
+\* text without anything to escape is copied as it is (this also keeps very long plain strings cheap to evaluate)
+EscBody(s) == IF \A i \in DOMAIN s : ~NeedsEscape(s[i]) THEN s ELSE EscBodyR(s)
 Quoted(s) == <<34>> \o EscBody(s) \o <<34>>
 
 NumberText(v) == IF v.s # <<>> THEN v.s ELSE NumText[v.n]       \* a parsed number prints... by its catalogue id only; lexeme form kept for canonical trees
